@@ -22,11 +22,13 @@ def sh(cmd, cwd=None, timeout=3600, env=None):
 
 
 def main():
-    prop = sys.argv[1]
-    wt = "/tmp/mut/" + prop
+    tag = sys.argv[1]                      # "C02" or "R2C02" (second round: worktree /tmp/mut/R2C02)
+    prop = tag[-3:]
+    rnd = tag[:-3].lower()                 # "" or "r2"
+    wt = "/tmp/mut/" + tag
     out = os.path.join(wt, "OUT")
     names = sys.argv[2:] or sorted(d for d in os.listdir(out) if d.startswith("m") and os.path.isdir(os.path.join(out, d)))
-    run_root = "/tmp/mutrun/" + prop
+    run_root = "/tmp/mutrun/" + tag
     check_props = [prop] + [p for p in os.environ.get("ALSO", "").split(",") if p]
     results = []
     for name in names:
@@ -85,7 +87,7 @@ def main():
         r["confirmed"] = bool(r["applies"] and r["builds_all_features"] and r["baseline_passes"] and r["demo_fails_with_change"] and r["demo_passes_without_change"])
         results.append(r)
         if r["confirmed"]:
-            dst = os.path.join(VERIF, "seeded", "%s-%s" % (prop, name))
+            dst = os.path.join(VERIF, "seeded", "%s-%s%s" % (prop, rnd, name))
             os.makedirs(dst, exist_ok=True)
             shutil.copy(os.path.join(d, "patch.diff"), dst)
             shutil.copy(os.path.join(d, "demo.rs"), dst)
@@ -99,7 +101,7 @@ def main():
             json.dump(m2, open(os.path.join(dst, "meta.json"), "w"), indent=1)
         print(json.dumps({k: v for k, v in r.items() if k != "checks"}), flush=True)
     os.makedirs(os.path.join(VERIF, "work", "seedeval"), exist_ok=True)
-    json.dump(results, open(os.path.join(VERIF, "work", "seedeval", prop + ".json"), "w"), indent=1)
+    json.dump(results, open(os.path.join(VERIF, "work", "seedeval", tag + ".json"), "w"), indent=1)
 
 
 if __name__ == "__main__":
